@@ -56,8 +56,9 @@ class _Reader:
 @register
 class SnarkjsProve(_Backend):
     name = SNARKJS + ":prove"
-    vprops = ("C10",)
-    fprops = ("C10",)
+    # C18: "the proving step runs ... over the complete trace": for the default backend that step is this function
+    vprops = ("C10", "C18")
+    fprops = ("C10", "C18")
 
     def configs(self, tier):
         shapes = [
